@@ -18,6 +18,11 @@ CHECKS = {
          "Seeded random search over operation sequences x 6 key/value families x page/region/cache sizes with byte-exact threshold value lengths; every return value and full forward/backward scans compared with a BTreeMap. A search, not a proof: it establishes that no counterexample exists among the generated cases.",
          "Trusts the harness model (Rust Ord of the key values), the hook setters for page/region size, and that values <= region/4 are representative.",
          "DESIGN.md 4/C04"),
+ "C09": ("exploration", "model-based property testing: proptest-generated multimap op tapes vs BTreeMap<K,BTreeSet<V>> reference model, shrinking to a replay tape",
+         "tableops",
+         "Seeded random search over multimap operation sequences x 3 key/value families x page/region/cache sizes, with value counts and sizes steered across the inline/subtree limit in both directions; every return value, MultimapValue::len during consumption, and full scans compared with the model after every transaction and reopen.",
+         "Trusts the harness model; inline/subtree classification for the non-triviality count is a size estimate.",
+         "DESIGN.md 4/C09"),
 }
 
 ALL = ["C%02d" % i for i in range(1, 21)]
